@@ -2,3 +2,4 @@
 //! instrumented counterpart contracts.
 pub mod math;
 pub mod tokens;
+pub mod access;
